@@ -247,6 +247,25 @@ def _hermitian_precondition(c, M, what):
                                     SB(z3.And(*conds)) if len(conds) > 1 else SB(conds[0])))
 
 
+def _same_matrix_precondition(c, M, ref, what):
+    A, Rf = _dense(M), _dense(ref)
+    conds = []
+    if A.shape != Rf.shape:
+        conds.append(z3.BoolVal(False))
+    else:
+        for i in _np.ndindex(*A.shape):
+            e = (A[i] == Rf[i])
+            if isinstance(e, SB):
+                conds.append(e.t)
+            elif not bool(e):
+                conds.append(z3.BoolVal(False))
+    if conds:
+        if not hasattr(c, "lib_preconditions"):
+            c.lib_preconditions = []
+        c.lib_preconditions.append(("scipy.linalg eigen-solver: argument %s is the module's input matrix" % what,
+                                    SB(z3.And(*conds)) if len(conds) > 1 else SB(conds[0])))
+
+
 def _eig_registered(a, b, kind):
     c = _ctx.current()
     if kind == "eigh":
@@ -256,7 +275,13 @@ def _eig_registered(a, b, kind):
     regs = _reg(c).get("eig", [])
     if not regs:
         raise _nps.EncodingGap("scipy.linalg.%s without registered oracle eigenpairs" % kind)
-    W, Q = regs[-1]
+    reg = regs[-1]
+    W, Q = reg[0], reg[1]
+    if len(reg) >= 3 and reg[2] is not None:
+        # the oracle's eigenpairs belong to a particular pencil: LAPACK must be handed exactly that pencil
+        _same_matrix_precondition(c, a, reg[2], "a")
+        if len(reg) >= 4 and reg[3] is not None and b is not None:
+            _same_matrix_precondition(c, b, reg[3], "b")
     c.stubs.add("scipy.linalg.%s (contract oracle: arbitrary (W, Q) with A Q = B Q diag(W))" % kind)
     c.oracle_eig_calls = getattr(c, "oracle_eig_calls", []) + [(kind, a, b)]
     return wrap(_np.array(W, dtype=object)), wrap(_np.array(Q, dtype=object))
